@@ -34,6 +34,13 @@
 //     (the sequence readers strip it), JSON escapes only for valid code points
 //     (no lone surrogates), no JSON null.  A title on which the header parser
 //     reports an error (logrus fatal) or panics is "not accepted" and only counted.
+//   - Oracle (c), OBI-style titles: the OBI parser converts integral numbers to Go
+//     int; a number beyond the int range ("count=12345678901234567890;") becomes
+//     an int of magnitude above 2^53, outside the value grammar: such cases are
+//     still compared by value, but not for byte-identity of the second writing.
+//     A "definition" annotation that is not a string ("definition=12;") is compared
+//     by value with the other annotations, not through BioSequence.Definition()
+//     (its %v rendering depends on int vs float64).
 //   - Oracle (d): obiconvert with default options (format guessed from the
 //     content, header format guessed), 1-6 records per file so that the whole
 //     file is one batch (ordering of batches is C03/C04's subject).  The second
